@@ -14,6 +14,7 @@ import (
 	"io"
 	"math/rand"
 	"os"
+	"strings"
 	"sync"
 	"sync/atomic"
 	"time"
@@ -232,6 +233,7 @@ func (s *instrTarget) Tag(ctx context.Context, d ocispec.Descriptor, ref string)
 		}
 	}
 	s.r.log("tag", n)
+	s.r.log("tag:"+ref, n)
 	return s.t.Tag(ctx, d, ref)
 }
 
@@ -392,6 +394,9 @@ func emitRun(ctx context.Context, sc *Script, r *copyRun, err error, dst content
 		switch name {
 		case "cancel", "tag":
 			continue
+		}
+		if strings.Contains(name, ":") {
+			continue // root-flow detail (tag:<ref>, pushRef:<ref>), judged by `cp rootflow`
 		}
 		sc.Op("ok", "cp ev %s %d", name, n)
 		sc.Count("ev:" + name)
